@@ -115,6 +115,19 @@ theorem cmp_witness_configByCreationTime :
     let b : Cfg := { id := 0, time := 1, name := "x", ns := "default", sel := false, kind := "DestinationRule" }
     a ≠ b ∧ cfgCmp a b = .eq ∧ cfgCmp b a = .eq := by decide
 
+/-! ### Gateway API conversion: sortConfigByCreationTime / sortRoutesByCreationTime  (op `gwcfg`) -/
+
+theorem cmp_total_gatewayConfigs :
+    TotalOnKey gwCfgCmp (fun c : Cfg => (c.time, c.ns, c.name)) :=
+  (natCmp_total Cfg.time).lex ((strCmp_total Cfg.ns).lex (strCmp_total Cfg.name))
+
+theorem sortGatewayConfigs_perm : Deterministic sortGatewayConfigs NamesDistinct :=
+  fun _ _ hd p => sort_canonical_key_aux cmp_total_gatewayConfigs (isort_isSort_aux cmp_total_gatewayConfigs.weakOrder)
+    (fun a b ha hb hne e => hd a b ha hb hne (by
+      have h1 : a.ns = b.ns := congrArg (fun k => k.2.1) e
+      have h2 : a.name = b.name := congrArg (fun k => k.2.2) e
+      simp [h1, h2])) p
+
 /-! ### sortConfigBySelectorAndCreationTime                                          (op `dr`) -/
 
 theorem cmp_total_configBySelector :
